@@ -2,6 +2,7 @@ SPECIFICATION Spec
 CONSTANTS
   SharedField = "none"
   MemoBound = TRUE
+  SampleKinds = FALSE
   HistLen = 4
 POSTCONDITION Written
 CHECK_DEADLOCK FALSE
